@@ -131,7 +131,12 @@ class StartStageConditionsMixin:
         for s in all_stages:
             if s.id == stage.id:
                 continue
-            if s.deferred_choice_group == stage.deferred_choice_group and s.status != WorkflowStatus.NOT_STARTED:
+            # A sibling that was SKIPPED (stageEnabled false, expired, ...) never
+            # started: it has not taken the choice.
+            if s.deferred_choice_group == stage.deferred_choice_group and s.status not in (
+                WorkflowStatus.NOT_STARTED,
+                WorkflowStatus.SKIPPED,
+            ):
                 return True
         return False
 
